@@ -22,7 +22,7 @@ class Diagonalize(Transform[Gradients, Jacobians]):
         flattened_considered_values = [tensors[key].reshape([-1]) for key in self.considered]
         diagonal_matrix = torch.cat(flattened_considered_values).diag()
         diagonalized_tensors = {
-            key: diagonal_matrix[:, begin:end].reshape((-1,) + key.shape)
+            key: diagonal_matrix[:, begin:end].reshape((len(diagonal_matrix),) + key.shape)
             for (begin, end), key in zip(self.indices, self.considered)
         }
         return Jacobians(diagonalized_tensors)
